@@ -309,6 +309,63 @@ class GexInit(Harness):
         return 'send_init_gex:' + obs['exc'].type
 
 
+class GexOversized(Harness):
+    """a group-exchange group whose modulus is far larger than anything the tool asks for (the work of one modular exponentiation grows with the cube of the
+    peer-chosen size): refused with KexDHException before any exponentiation is attempted; a modulus of up to 8192 bits is still processed."""
+    prop, ob = PROP, 'O5'
+    width = 64
+
+    def __init__(self, bits):
+        self.bits = bits
+        self.name = 'gexoversized-%d' % bits
+
+    def params(self):
+        return {'bits': self.bits}
+
+    def inputs(self):
+        g = zx.fresh_bytes('g', 1)          # the generator is the symbolic part; the modulus is concrete (its size is what matters)
+        if zx.active():
+            zx.cur().assume(g[0] >= 2)
+        return {'g': g}
+
+    def run(self, M, inp):
+        out = M.outputbuffer.OutputBuffer()
+        k = M.kexdh.KexGroupExchange_SHA256(out)
+        nb = self.bits // 8
+        p = b'\x00\x80' + b'\x00' * (nb - 2) + b'\x01'
+        calls = []
+
+        class Rnd:
+            class SystemRandom:
+                def randrange(self, a, b=None):
+                    return a
+        real_pow = pow
+
+        def counting_pow(*a):
+            calls.append(1)
+            return 1
+        if zx.active():
+            zx.cur().pow_hook = lambda g, e, p_: (calls.append(1), 1)[1]
+        pristine = M.kind == 'pristine'
+        with AE.patched(M.kexdh, random=Rnd):
+            if pristine:
+                M.kexdh.__dict__['pow'] = counting_pow
+            try:
+                r = guarded(k.send_init_gex, FakeSockRW([(31, AE.sshstr(p) + AE.sshstr(inp['g']))]), 2048, 2048, 2048)
+            finally:
+                if pristine:
+                    del M.kexdh.__dict__['pow']
+        return {'exc': r if isinstance(r, Exc) else None, 'pows': len(calls)}
+
+    def check(self, inp, obs):
+        e = obs['exc']
+        yield 'only-KexDHException', e is None or e.type == 'KexDHException'
+        if self.bits <= 8192:
+            yield 'group-within-the-largest-size-the-tool-requests-is-processed', e is None
+        else:
+            yield 'oversized-group-refused-before-any-exponentiation', e is not None and e.type == 'KexDHException' and obs['pows'] == 0
+
+
 # --------------------------------------------------------------------------------------------- audit level
 BANNER = b'SSH-2.0-OpenSSH_8.0\r\n'
 ENC, MAC = ['aes128-ctr'], ['hmac-sha2-256']
@@ -621,6 +678,8 @@ def tasks(tier):
     for n in ((0, 3, 4, 5, 8, 9, 10) if q else range(0, 15)):
         T.append(GexInit(n))
     T.append(GexInit(4, 5))
+    for b in ((4096, 8192, 16384, 65536) if q else (1024, 4096, 8192, 8200, 16384, 65536, 262144)):
+        T.append(GexOversized(b))
     T.append(GexInit(4, -1))
     for n in ((0, 1, 3) if q else range(0, 5)):
         T.append(AuditFirstConn(n, 2))
@@ -666,6 +725,8 @@ def harness_by_name(name, params):
         return ParseTotal(params['which'], params['n'])
     if k.startswith('recvreply'):
         return RecvReply(params['n'], params['parse_size'], params['ptype'])
+    if k.startswith('gexoversized'):
+        return GexOversized(params['bits'])
     if k.startswith('gexinit'):
         return GexInit(params['n'], params['ptype'])
     if k.startswith('version-fallback'):
